@@ -32,6 +32,7 @@ func runC12(r *Report, p *Program) {
 	c12R7(h)
 	c12R8(h)
 	c12R9(h)
+	c12R10(h)
 }
 
 // writes500: the instruction writes a 500 response (DefaultErrorFunc/WriteTextResponse/errorPage with constant 500).
